@@ -36,7 +36,7 @@ def h(t, part):
 
     outcome = part.get('outcome', 'object')      # what the underlying method does: return a value / raise
     if outcome == 'any':
-        ocs = ['empty-dict', 'none', 'raises'] + (['cancelled'] if cname.startswith('Async') else [])
+        ocs = ['empty-dict', 'none', 'raises', 'raises-typeerror'] + (['cancelled'] if cname.startswith('Async') else [])
         outcome = ocs[t.choice(len(ocs))]
     RETV = {'object': RET, 'empty-dict': {}, 'empty-list': [], 'none': None, 'zero': 0}.get(outcome, RET)
 
@@ -50,6 +50,9 @@ def h(t, part):
         calls.append(d)
         if outcome == 'raises':
             raise Oops('from the underlying method')
+        if outcome == 'raises-typeerror':
+            # what the underlying method raises for a payload that cannot be serialised
+            raise TypeError('Object of type set is not JSON serializable')
         if outcome == 'cancelled':
             import asyncio
             raise asyncio.CancelledError()
@@ -110,16 +113,22 @@ def h(t, part):
     try:
         ret = drv.call(getattr(ns, helper)(*args, **kwargs))
     except TypeError as e:
-        return Fail('helper:%s.%s:rejects-arguments' % (cname, helper), 'args %r kwargs %r: %r' % (args, kwargs, e))
+        if outcome == 'raises-typeerror' and 'JSON serializable' in str(e):
+            raised = 'TypeError'
+        else:
+            return Fail('helper:%s.%s:rejects-arguments' % (cname, helper), 'args %r kwargs %r: %r' % (args, kwargs, e))
     except Oops as e:
         raised = 'Oops'
     except BaseException as e:      # noqa: asyncio.CancelledError must pass through like any other outcome
         if type(e).__name__ != 'CancelledError':
             raise
         raised = 'CancelledError'
-    if outcome in ('raises', 'cancelled'):
+    if outcome in ('raises', 'cancelled', 'raises-typeerror'):
         t.reached('helper')
-        want = 'Oops' if outcome == 'raises' else 'CancelledError'
+        want = {'raises': 'Oops', 'raises-typeerror': 'TypeError'}.get(outcome, 'CancelledError')
+        if len(calls) != 1:
+            return Fail('helper:%s.%s:calls=%d:after-%s' % (cname, helper, len(calls), want),
+                        'the underlying method raised %s; it was called %d times: %r' % (want, len(calls), calls))
         if raised != want:
             return Fail('helper:%s.%s:exception-not-propagated' % (cname, helper), 'the method raised %s, the helper %s' % (
                 want, 'raised ' + raised if raised else 'returned %r' % (ret,)))
